@@ -130,7 +130,14 @@ func c01BuilderResult(o *an.Obl, f *an.Func, fee string) {
 		if !ok || be.Op != token.GTR || !strings.HasSuffix(f.Canon(be.Y), ".Capacity") {
 			return true
 		}
-		if add, ok := ast.Unparen(be.X).(*ast.BinaryExpr); ok && add.Op == token.ADD {
+		lhs := ast.Unparen(be.X)
+		// a temporary holding the sum (`t := total + fee; if t > Capacity`)
+		if id, ok := lhs.(*ast.Ident); ok {
+			if d := f.UniqueDef(id); d != nil {
+				lhs = ast.Unparen(d)
+			}
+		}
+		if add, ok := lhs.(*ast.BinaryExpr); ok && add.Op == token.ADD {
 			if f.Canon(add.Y) != fee {
 				o.FailAt(f.ID+"#capacity-fee", f.Where(be.Pos()), "the capacity check adds %s to the outputs, not the commitment fee %s", f.Canon(add.Y), fee)
 			}
@@ -152,7 +159,7 @@ func c01SumOfOutputs(o *an.Obl, f *an.Func, obj types.Object, rhsRe string) {
 	n := 0
 	for _, w := range ws {
 		as, ok := w.Node.(*ast.AssignStmt)
-		if ok && as.Tok == token.ADD_ASSIGN && len(as.Rhs) == 1 && reMatch(rhsRe, f.Canon(as.Rhs[0])) {
+		if ok && as.Tok == token.ADD_ASSIGN && len(as.Rhs) == 1 && reMatch(rhsRe, c01ElemNorm(f.Canon(as.Rhs[0]))) {
 			n++
 			o.Site("output sum %s", w.String())
 			continue
@@ -233,6 +240,14 @@ func c01ComputeViewBalances(o *an.Obl, g *an.Func, isInit an.Term, part string) 
 				o.FailAt(g.ID+"#balance-writer-"+side.bal, s.Where(), "unclassified write of the %s computeView returns: %s", side.bal, s.String())
 				continue
 			}
+			// `b = b + e` / `b = b - e` is `b += e` / `b -= e`; so is
+			// `t := b; ...; b = t + e` when b is not written between the two
+			// (the shape an extracted `b = apply(b, e)` helper has once it is
+			// inlined: the parameter is bound to the balance, the returns
+			// become the assignments).
+			if tok, operand := c01SelfUpdate(g, s, objs[i]); operand != nil {
+				as = &ast.AssignStmt{Lhs: as.Lhs, TokPos: as.TokPos, Tok: tok, Rhs: []ast.Expr{operand}}
+			}
 			rhs := g.Canon(as.Rhs[0])
 			if strings.Contains(rhs, "evaluateHTLCView(") != (part == "deltas") {
 				continue
@@ -270,6 +285,85 @@ func c01ComputeViewBalances(o *an.Obl, g *an.Func, isInit an.Term, part string) 
 			}
 		}
 	}
+}
+
+// c01SelfUpdate recognises the write s of the variable obj as an in-place
+// update `obj = <current value of obj> (+|-) operand` and returns the
+// equivalent compound token (+= / -=) and the operand; (0, nil) otherwise.
+// The current value of obj is the identifier obj itself, or a local that is
+// defined exactly once, from the identifier obj, such that no other write of
+// obj lies on a path from that definition to s.
+func c01SelfUpdate(g *an.Func, s an.Site, obj types.Object) (token.Token, ast.Expr) {
+	as, ok := s.Node.(*ast.AssignStmt)
+	if !ok || as.Tok != token.ASSIGN || len(as.Lhs) != 1 || len(as.Rhs) != 1 || s.V == nil {
+		return 0, nil
+	}
+	be, ok := ast.Unparen(as.Rhs[0]).(*ast.BinaryExpr)
+	if !ok || (be.Op != token.ADD && be.Op != token.SUB) {
+		return 0, nil
+	}
+	tok := token.ADD_ASSIGN
+	if be.Op == token.SUB {
+		tok = token.SUB_ASSIGN
+	}
+	id, ok := ast.Unparen(be.X).(*ast.Ident)
+	if !ok {
+		return 0, nil
+	}
+	// the operand must not read the balance itself
+	reads := false
+	ast.Inspect(be.Y, func(n ast.Node) bool {
+		if x, ok := n.(*ast.Ident); ok && g.Info().Uses[x] == obj {
+			reads = true
+		}
+		return true
+	})
+	if reads {
+		return 0, nil
+	}
+	if g.Info().Uses[id] == obj {
+		return tok, be.Y
+	}
+	// a temporary holding the balance
+	owner := g
+	def := g.UniqueDef(id)
+	if def == nil {
+		for _, l := range g.Lits {
+			if l.Lit.Pos() <= id.Pos() && id.End() <= l.Lit.End() {
+				if d := l.UniqueDef(id); d != nil {
+					owner, def = l, d
+				}
+			}
+		}
+	}
+	if def == nil {
+		return 0, nil
+	}
+	src, ok := ast.Unparen(def).(*ast.Ident)
+	if !ok || owner.Info().Uses[src] != obj {
+		return 0, nil
+	}
+	gr := g.Graph()
+	d := gr.Containing(src, true)
+	if d == nil || d == s.V {
+		return 0, nil
+	}
+	for _, w := range g.Assigns(c01ObjTerm(obj), true) {
+		if w.V == nil || w.V == s.V {
+			continue
+		}
+		if w.V == d {
+			return 0, nil
+		}
+		if gr.Reach(d, nil, map[*flow.Vertex]bool{s.V: true})[w.V] && gr.Reach(w.V, nil, map[*flow.Vertex]bool{d: true})[s.V] {
+			return 0, nil
+		}
+	}
+	// the definition is executed before the write on every path
+	if !gr.Reach(d, nil, nil)[s.V] {
+		return 0, nil
+	}
+	return tok, be.Y
 }
 
 // c01ReachingDefs returns, for the variable obj, the definition vertices of f
@@ -807,5 +901,42 @@ func c01AddHtlcDirections(o *an.Obl, p *an.Prog) {
 		if want == "" || a[2] != want || a[3] != "$elem("+hdr+")" || a[1] != "$p2" {
 			o.FailAt(f.ID+"#addHTLC-direction", s.Where(), "addHTLC inside the loop over %s must add that loop's element with isIncoming=%s to whoseCommit's transaction; got (owner %s, isIncoming %s, htlc %s)", hdr, want, a[1], a[2], a[3])
 		}
+	}
+}
+
+// c01ElemNorm rewrites, in a canonical form, `X[$key(X)]` (the element read
+// through the key of a `for i := range X` loop) to `$elem(X)` (the value
+// variable of `for _, x := range X`).
+func c01ElemNorm(c string) string {
+	for from := 0; ; {
+		k := strings.Index(c[from:], "[$key(")
+		if k < 0 {
+			return c
+		}
+		k += from
+		start := k + len("[$key(")
+		depth, end := 1, -1
+		for i := start; i < len(c); i++ {
+			if c[i] == '(' {
+				depth++
+			} else if c[i] == ')' {
+				depth--
+				if depth == 0 {
+					end = i
+					break
+				}
+			}
+		}
+		if end < 0 || end+1 >= len(c) || c[end+1] != ']' {
+			from = k + 1
+			continue
+		}
+		x := c[start:end]
+		if !strings.HasSuffix(c[:k], x) {
+			from = k + 1
+			continue
+		}
+		c = c[:k-len(x)] + "$elem(" + x + ")" + c[end+2:]
+		from = 0
 	}
 }
